@@ -103,11 +103,17 @@ def regenerate():
     with Lock("extract"):
         exe = os.path.join(BUILD, "extract")
         src = os.path.join(VERIF, "tools", "extract")
-        newest = max(os.path.getmtime(f) for f in glob.glob(src + "/*.go"))
-        if not os.path.exists(exe) or os.path.getmtime(exe) < newest:
+        # rebuilt whenever its sources differ from those it was built from (content, not mtime: files copied
+        # with their old timestamps must count as changed)
+        hh = hashlib.sha256()
+        for f in sorted(glob.glob(src + "/*.go") + glob.glob(src + "/go.*")):
+            hh.update(os.path.basename(f).encode() + b"\0" + open(f, "rb").read() + b"\0")
+        stamp = exe + ".sha"
+        if not os.path.exists(exe) or not os.path.exists(stamp) or open(stamp).read() != hh.hexdigest():
             rc, out = run(["go", "build", "-o", exe, "."], cwd=src, env=GOENV)
             if rc != 0:
                 raise SystemExit("extractor does not build:\n" + out)
+            open(stamp, "w").write(hh.hexdigest())
         os.makedirs(GEN, exist_ok=True)
         rc, out = run([exe, "-repo", REPO, "-out", GEN])
         if rc != 0:
